@@ -95,7 +95,7 @@ func verifC14(maxSteps int) {
 		st := verifStep{kind: verifChoose("step", 4)}
 		switch st.kind {
 		case 0:
-			st.status = []int{200, 404, 204, 103}[verifChoose("code", 4)]
+			st.status = []int{200, 404, 204, 103, 101}[verifChoose("code", 5)]
 		case 1:
 			st.data = []byte(verifNondetStringN("data", 1))
 		}
@@ -147,7 +147,8 @@ func verifC14(maxSteps int) {
 		switch st.kind {
 		case 0:
 			// an informational status (103 Early Hints) does not end the header phase
-			if !hWrote && !(st.status >= 100 && st.status <= 199) {
+			// (101 Switching Protocols is the exception: it is the final status of its response)
+			if !hWrote && (st.status == 101 || !(st.status >= 100 && st.status <= 199)) {
 				hWrote, hStatus = true, st.status
 			}
 		case 1:
@@ -199,7 +200,7 @@ func verifC14(maxSteps int) {
 	_ = errors.New
 }
 
-//verif:harness id=C14 tier=quick witness=end bounds="route found or not x request valid or not x strict or not x every handler call sequence of length 0..3 over {WriteHeader(200|404|204|103), Write(1 symbolic byte), Header().Set, Flush}; client writer implements net/http's contract"
+//verif:harness id=C14 tier=quick witness=end bounds="route found or not x request valid or not x strict or not x every handler call sequence of length 0..3 over {WriteHeader(200|404|204|103|101), Write(1 symbolic byte), Header().Set, Flush}; client writer implements net/http's contract"
 func verifH_C14_middleware() { verifC14(3) }
 
 //verif:harness id=C14 tier=thorough witness=end bounds="as quick with handler call sequences of length 0..5"
